@@ -73,7 +73,9 @@ copyreg.pickle(types.MethodType, _pickle_method, _unpickle_method)
 def ignore_aliases(data):
     try:
         # numpy arrays no longer want to be compared to None, so instead check for a none by looking for if it is an instance of NoneType
-        if isinstance(data, (str, bool, int, float)):
+        # numpy scalars are written as (and reload as) plain numbers, so they
+        # must not be anchored either or the text changes on the next save
+        if isinstance(data, (str, bool, int, float, np.generic)):
             return True
         if data is None or len(data) == 0:
             return True
